@@ -788,6 +788,12 @@ pub fn signed_bitmessage_to_buf(
         return Err(ProtoError::from("TSIG signature record not found"));
     };
 
+    // RFC 8945 section 4.2: CLASS MUST be ANY and TTL MUST be 0. The MAC covers these two
+    // fields with exactly those values, so anything else cannot have been signed.
+    if tsig_rr.dns_class != DNSClass::ANY || tsig_rr.ttl != 0 {
+        return Err(ProtoError::from("TSIG record must have class ANY and TTL 0"));
+    }
+
     let tsig = &tsig_rr.data;
 
     // Construct the TBS data.
